@@ -5,7 +5,14 @@ Development tool: not part of the registered commands."""
 import json, os, subprocess, sys, time
 ROOT = os.path.dirname(os.path.abspath(__file__))
 DIR = os.path.join(ROOT, "benign")
-only = sys.argv[1:]
+import concurrent.futures
+args = sys.argv[1:]
+jobs = 1
+if "-j" in args:
+    i = args.index("-j")
+    jobs = int(args[i + 1])
+    del args[i:i + 2]
+only = args
 rows = {}
 out = os.path.join(DIR, "RESULTS.md")
 if os.path.exists(out):
@@ -13,12 +20,18 @@ if os.path.exists(out):
         c = [x.strip() for x in l.strip().strip("|").split("|")]
         if len(c) == 5 and c[0] not in ("benign rewrite", "---"):
             rows[c[0]] = c
+todo = []
 for d in sorted(os.listdir(DIR)):
     p = os.path.join(DIR, d)
     if not os.path.isfile(os.path.join(p, "patch.diff")):
         continue
-    if only and not any(d.startswith(o) for o in only):
+    if only and not any(d.startswith(o) or o in d for o in only):
         continue
+    todo.append(d)
+
+
+def one(d):
+    p = os.path.join(DIR, d)
     meta = json.load(open(os.path.join(p, "meta.json")))
     prop = meta["property"]
     scratch = f"/var/tmp/benigntest/{d}"
@@ -48,8 +61,13 @@ for d in sorted(os.listdir(DIR)):
             res, detail = "ALARM", "; ".join(kinds)[:300]
     subprocess.run(["git", "-C", "/repo", "worktree", "remove", "--force", scratch], capture_output=True)
     subprocess.run(["rm", "-rf", scratch, scratch + "-verif-target"])
-    rows[d] = [d, prop, res, meta.get("summary", "")[:120].replace("|", "/"), detail.replace("|", "/")]
     print(d, prop, res, detail, flush=True)
+    return [d, prop, res, meta.get("summary", "")[:120].replace("|", "/").replace("\n", " "), detail.replace("|", "/")]
+
+
+with concurrent.futures.ThreadPoolExecutor(max_workers=jobs) as ex:
+    for r in ex.map(one, todo):
+        rows[r[0]] = r
 with open(out, "w") as f:
     f.write("| benign rewrite | property | result | what was rewritten | detail |\n|---|---|---|---|---|\n")
     for k in sorted(rows):
